@@ -69,6 +69,9 @@ pub fn universe() -> Vec<UVal> {
         u("'NaN'", vec![Put(s("NaN"))]),
         u("'inf'", vec![Put(s("inf"))]),
         u("'ünï'", vec![Put(s("ünï"))]),
+        // a character from U+E000..U+FFFF and one beyond U+FFFF: their order differs between code points and UTF-16 units
+        u("'Ａ'", vec![Put(s("Ａ"))]),
+        u("'🎸'", vec![Put(s("🎸"))]),
         u("[]", vec![PushNone]),
         u("[1]", vec![Push(vec![n(1.0)])]),
         u("[1,2]", vec![Push(vec![n(1.0), n(2.0)])]),
